@@ -326,7 +326,19 @@ func (m *Machine) doSelect(th *Thread, fr *Frame, in *ssa.Select) {
 		return opts[m.decide("select", alts)]
 	}
 	idx := -1
+	// A sender that completed its send on an unbuffered channel did so because this select was
+	// waiting on that channel: the hand-off has committed the select to that case, whatever else
+	// became ready afterwards (otherwise the value would be delivered to nobody).
+	handed := -1
+	for i, s := range states {
+		if s.c != nil && !s.send && !s.c.timer && s.c.cap == 0 && th.recvReg[s.c] && len(s.c.buf) > 0 {
+			handed = i
+			break
+		}
+	}
 	switch {
+	case handed >= 0:
+		idx = handed
 	case fire && len(timers) > 0:
 		idx = choose(timers)
 	case len(ready) > 0 && len(timers) > 0 && m.cfgInt("timersMayFireEarly", 1) == 1:
